@@ -15,6 +15,7 @@ from ..author import World, gen_world
 from ..ref import (ref_convolve, ref_interp_ap, ref_k, ref_distance_grid, lsq_two, lsq_one)
 from ..runner import Outcome
 from .C07 import _WriteFault
+from . import C09 as _c9
 
 ID = 'C08'
 LEVEL = 'exploration'
@@ -324,7 +325,7 @@ def _execute(sc, sim, out):
                 ok = hd[0] == t['name'] and row[1] == want and len(row) == 5 + len(W.par_names)
                 for ci, c in enumerate(W.par_names):
                     x = float(W.pars[c][t['m']])
-                    ok = ok and abs(float(row[5 + ci]) - x) <= 6e-4 * abs(x)
+                    ok = ok and _c9._close(row[5 + ci], x)
                 if not ok:
                     out.violate('parameter-row', 'source %s: write_parameters prints %s, the planted model %s has parameters %s' % (
                         t['name'], row, want, [float(W.pars[c][t['m']]) for c in W.par_names]))
@@ -373,7 +374,7 @@ def _execute(sc, sim, out):
                         ok = hd[0] == t['name'] and row[1] == want and len(row) == 5 + len(W.par_names)
                         for ci, c in enumerate(W.par_names):
                             x = float(W.pars[c][t['m']])
-                            ok = ok and abs(float(row[5 + ci]) - x) <= 6e-4 * abs(x)
+                            ok = ok and _c9._close(row[5 + ci], x)
                         if not ok:
                             out.violate('parameter-row', 'source %s (results passed as objects%s): write_parameters prints %s, the planted model %s has parameters %s' % (
                                 t['name'], ', another package fitted in between' if sc.get('intruder') else '', row, want, [float(W.pars[c][t['m']]) for c in W.par_names]), key='objects')
